@@ -161,6 +161,33 @@ func (e *Engine) header(st *symtab) string {
 			}
 		}
 	}
+	if st.ufs["implErr"] {
+		for _, id := range nonErrorTypeIDs() {
+			fmt.Fprintf(&sb, "(assert (not (implErr %d)))\n", id)
+		}
+	}
+	// distinct string literals are distinct strings
+	{
+		var lits []string
+		for _, n := range sortedKeys(st.ufs) {
+			if strings.HasPrefix(n, "str$") {
+				lits = append(lits, smtIdent(n))
+			}
+		}
+		if len(lits) > 1 {
+			fmt.Fprintf(&sb, "(assert (distinct %s))\n", strings.Join(lits, " "))
+		}
+		if st.ufs["strlen"] {
+			for _, n := range sortedKeys(st.ufs) {
+				if l, ok := strLitLen[n]; ok {
+					fmt.Fprintf(&sb, "(assert (= (strlen %s) %d))\n", smtIdent(n), l)
+				}
+			}
+			if st.ufs["str$empty"] {
+				sb.WriteString("(assert (forall ((s Str)) (! (=> (= (strlen s) 0) (= s str$empty)) :pattern ((strlen s)))))\n")
+			}
+		}
+	}
 	// sentinel globals: non-nil, pairwise distinct
 	var sent []string
 	for _, n := range sortedKeys(st.ufs) {
